@@ -13,7 +13,7 @@ API (kept stable):
   in_workspace(model, Tb, Tt, switches=(1,0,0,1), margin=...)  -> WS (truthy iff inside; .reason, .lengths)
   warm()                             import the library and run every SP kernel once
 
-  helpers: make_tm(T, form), held(tm_obj), read_plate_coords(sp), model.refresh(sp), accepted_unchanged(sp, Tb, Tt),
+  helpers: lib_call(fn, ...) (use instead of vf.core.sut for every SP call), make_tm(T, form), held(tm_obj), read_plate_coords(sp), model.refresh(sp), accepted_unchanged(sp, Tb, Tt),
            neutral_top(model, Tb), spec_geometry(spec), DEFAULT_SWITCHES
 
 Conventions: all poses the harness reasons about are 4x4 float64 matrices.  A pose handed to the library is a
@@ -303,6 +303,29 @@ def read_plate_coords(sp):
     return b, t
 
 
+def lib_call(fn, *args, **kw):
+    """vf.core.sut with the exception chain cut.  SP's solvers recurse into each other from `except` blocks
+    (_FKRaphson <-> _FKSolve), so a library failure can carry a __context__ chain a thousand exceptions deep;
+    Hypothesis walks that chain recursively when it reports the failure and dies with its own RecursionError
+    (a harness error instead of a VIOLATION).  The LibError is therefore re-raised outside any handler with its
+    chain removed; message and innermost library frame are kept."""
+    from .core import LibError, sut
+    err = None
+    try:
+        return sut(fn, *args, **kw)
+    except LibError as e:
+        err = e
+    err.__context__ = None
+    err.__cause__ = None
+    try:
+        err.exc.__context__ = None
+        err.exc.__cause__ = None
+        err.exc.__traceback__ = None
+    except AttributeError:
+        pass
+    raise err.with_traceback(None)
+
+
 def _lib():
     from basic_robotics.general import tm
     from basic_robotics.kinematics import sp_model
@@ -381,14 +404,13 @@ def construct(spec):
 
 
 def build_sp(spec):
-    """-> (sp, model).  Library exceptions surface as vf.core.LibError (a Violation)."""
-    from .core import sut
-    sp = sut(construct, spec)
+    """-> (sp, model).  Library exceptions surface as vf.core.LibError (a Violation), chain cut (lib_call)."""
+    sp = lib_call(construct, spec)
     if spec["route"] != "loadSP":            # loadSP takes it from the JSON
-        sut(sp.setMaxAngleDev, spec.get("max_dev", DEFAULT_MAX_DEV_DEG))
+        lib_call(sp.setMaxAngleDev, spec.get("max_dev", DEFAULT_MAX_DEV_DEG))
     model = SPModel(spec).set_neutral(sp)
     if spec.get("spin") is not None:
-        sut(sp.spinCustom, float(spec["spin"]))
+        lib_call(sp.spinCustom, float(spec["spin"]))
         model.refresh(sp)                    # plate-fixed coordinates are re-read; h and T_rel0 stay the construction ones
     return sp, model
 
@@ -400,9 +422,8 @@ def neutral_top(model, T_bot):
 
 def reset_neutral(sp, model, T_bot=None):
     """Put the platform back to neutral over T_bot (default: where its base stands) with a protected IK."""
-    from .core import sut
     Tb = read_poses(sp)[0] if T_bot is None else np.asarray(T_bot, dtype=float)
-    sut(sp.IK, make_tm(neutral_top(model, Tb)), make_tm(Tb), True)
+    lib_call(sp.IK, make_tm(neutral_top(model, Tb)), make_tm(Tb), True)
     return Tb
 
 
